@@ -4,13 +4,9 @@ use vstd::prelude::*;
 
 verus! {
 
-#[derive(Clone, Copy, PartialEq, Eq, Structural)]
-pub struct IpAddr { pub v6: bool, pub bits: u128 }
-#[derive(Clone, Copy, PartialEq, Eq, Structural)]
-pub struct SocketAddr { pub ipaddr: IpAddr, pub portno: u16 }
+//@include netmodel.rs
 
 /// Display of an IpAddr (canonical text) and decimal Display of integers
-pub uninterp spec fn ip_text(ip: IpAddr) -> Seq<char>;
 pub uninterp spec fn dec(n: nat) -> Seq<char>;
 /// IpAddr::from_str / SocketAddr::from_str as partial functions of the text
 pub uninterp spec fn parse_ip(s: Seq<char>) -> Option<IpAddr>;
@@ -19,9 +15,9 @@ pub uninterp spec fn parse_sockaddr(s: Seq<char>) -> Option<SocketAddr>;
 /// brackets; a port above 65535 never parses
 pub broadcast axiom fn axiom_parse_ip_text(ip: IpAddr) ensures #[trigger] parse_ip(ip_text(ip)) == Some(ip);
 pub broadcast axiom fn axiom_parse_sockaddr_v4(ip: IpAddr, p: nat)
-    ensures !ip.v6 && p <= 65535 ==> #[trigger] parse_sockaddr(ip_text(ip) + seq![':'] + dec(p)) == Some(SocketAddr { ipaddr: ip, portno: p as u16 });
+    ensures ip is V4 && p <= 65535 ==> #[trigger] parse_sockaddr(ip_text(ip) + seq![':'] + dec(p)) == Some(SocketAddr { ipaddr: ip, portno: p as u16 });
 pub broadcast axiom fn axiom_parse_sockaddr_v6_unbracketed(ip: IpAddr, p: nat)
-    ensures ip.v6 ==> #[trigger] parse_sockaddr(ip_text(ip) + seq![':'] + dec(p)) is None;
+    ensures ip is V6 ==> #[trigger] parse_sockaddr(ip_text(ip) + seq![':'] + dec(p)) is None;
 pub broadcast axiom fn axiom_parse_sockaddr_port(host: Seq<char>, p: nat)
     ensures p > 65535 ==> #[trigger] parse_sockaddr(host + seq![':'] + dec(p)) is None;
 
@@ -33,9 +29,6 @@ impl IpAddr {
         ensures match r { Ok(ip) => parse_ip(s@) == Some(ip), Err(_) => parse_ip(s@) is None } { unimplemented!() }
 }
 impl SocketAddr {
-    pub fn ip(&self) -> (r: IpAddr) ensures r == self.ipaddr { self.ipaddr }
-    pub fn port(&self) -> (r: u16) ensures r == self.portno { self.portno }
-    pub fn new(ip: IpAddr, port: u16) -> (r: SocketAddr) ensures r == (SocketAddr { ipaddr: ip, portno: port }) { SocketAddr { ipaddr: ip, portno: port } }
     #[verifier::external_body] pub fn from_str(s: &str) -> (r: Result<SocketAddr, AddrParseError>)
         ensures match r { Ok(a) => parse_sockaddr(s@) == Some(a), Err(_) => parse_sockaddr(s@) is None } { unimplemented!() }
 }
